@@ -4,7 +4,7 @@ FUNCTIONS = [('devices', 'EDFA'), ('devices', 'BPF'), ('typing', 'electrical_sig
              ('utils', 'idb')]
 BOUNDS = {'fields': 'N <= 2 (quick) / 3 (thorough) symbolic complex samples, one and two polarisations, with and without noise',
           'parameters': 'G in [0,40] dB, NF in [3,10] dB, wavelength, R (hence f0, fs): symbolic; the 4*N ASE draws are symbolic',
-          'BW option': 'records of 17 samples at BW/fs in {0.1, 0.25} (concrete Bessel design, symbolic samples)'}
+          'BW option': 'records of 17 samples at BW/fs in {0.25, 0.5, 0.75} (thorough: 0.1 .. 0.95; concrete Bessel design, symbolic samples, seed-replayed ASE)'}
 OUTSIDE = ['sample-power statistics of an ASE realisation (the clause is decided as: the ASE term is sqrt(P_ase/4) times 4*N independent '
            'standard-normal draws, P_ase = NF*h*f0*(G-1)*fs)']
 ASSUMPTIONS = ['np.random.randn returns independent standard normal draws (stub: arbitrary reals, one fresh variable per draw)',
@@ -122,6 +122,6 @@ def configs(tier):
             out.append((f'edfa-realfield-pol{pol}-{"noise" if noise else "clean"}', scen_edfa, dict(n=1, pol=pol, noise=noise, vtype='float'), {}))
     out.append(('edfa-types', scen_types, {}, {}))
     for pol in ((1,) if q else (1, 2)):
-        for bw in ((0.5e9,) if q else (0.2e9, 0.5e9, 0.8e9)):
+        for bw in ((0.5e9, 1e9, 1.5e9) if q else (0.2e9, 0.5e9, 0.8e9, 1e9, 1.2e9, 1.5e9, 1.9e9)):      # fs = 2e9: every realisable bandwidth class, fs/2 included
             out.append((f'edfa-bw{bw:g}-pol{pol}', scen_bw, dict(n=17, pol=pol, BW=bw), {'validate': 1}))
     return out
